@@ -26,10 +26,11 @@ def q(v):
 
 def foreign_lines(rng):
     out = []
-    sec = rng.choice(["foo", "Bar", "sizerx", 'x "a.b"', "refgroups", 'refgroupx "mine"', 'foo "Sub.Section"'])
+    # `[refgroup]` without a subsection defines no group: its entries belong to no group, the top-level one included
+    sec = rng.choice(["foo", "Bar", "sizerx", 'x "a.b"', "refgroups", 'refgroupx "mine"', 'foo "Sub.Section"', "refgroup", "refgroup"])
     out.append("[%s]" % sec)
     for _ in range(rng.randrange(1, 4)):
-        k = rng.choice(["bar", "name", "include", "autocrlf2", "x1", "Key"])
+        k = rng.choice(["bar", "name", "include", "autocrlf2", "x1", "Key"] + (["include", "exclude", "includeRegexp"] if sec == "refgroup" else []))
         shape = rng.random()
         if shape < 0.3:
             out.append("\t%s" % k)                      # a key without a value
@@ -181,7 +182,14 @@ def run(ctx):
                 elif a != m:
                     res.violations.append(vlib.Violation("GetConfig differs from the model", inp, expected=m[:2000], observed=a[:2000], nofail=True))
             # (2) groups visible through the CLI
-            rc, out, err = S.run_sizer(ctx["bins"]["sizer"], d, ["--json", "--no-progress"], env=env)
+            rc, out, err = S.run_sizer(ctx["bins"]["sizer"], d, ["--json", "--no-progress", "--show-refs"], env=env)
+            marks = {}
+            for l in err.split(b"\n"):
+                if l.startswith(b"+ "):
+                    marks[l[2:]] = True
+                elif l.startswith(b"  "):
+                    marks[l[2:]] = False
+            dist["bare_refgroup_entries"] = dist.get("bare_refgroup_entries", 0) + sum(1 for k, v in recs if k.startswith(b"refgroup.") and k.count(b".") == 1)
             defs = []
             for sym in syms:
                 ents = []
@@ -230,6 +238,16 @@ def run(ctx):
             if j["reference_groups"] != tall:
                 res.violations.append(vlib.Violation("refgroups read from gitconfig give different tallies than git's listing implies", inp,
                                                      expected=tall, observed=j["reference_groups"]))
+            # no reference option is given: every reference is walked whatever the configuration holds, so an entry that
+            # belongs to no group (another section, `[refgroup]` without a subsection) cannot change what is traversed
+            wexp = {n: w for n, (w, _) in zip(sorted(refs), cats)}
+            if marks != wexp:
+                res.violations.append(vlib.Violation("the references traversed differ from what the configuration implies (an entry leaked into the selection)", inp,
+                                                     expected={k.decode("latin1"): v for k, v in wexp.items()},
+                                                     observed={k.decode("latin1"): v for k, v in marks.items()}))
+            if j["reference_count"] != sum(1 for v in wexp.values() if v):
+                res.violations.append(vlib.Violation("reference_count differs from the number of references the configuration selects", inp,
+                                                     expected=sum(1 for v in wexp.values() if v), observed=j["reference_count"]))
             shutil.rmtree(d, ignore_errors=True)
         # directed: a subsection ending in '.' (legal for git) — the group must be usable like any other
         d = os.path.join(scratch, "dot")
@@ -255,6 +273,33 @@ def run(ctx):
                 expected="exit 0 with reference_groups['a.'] = 2", observed={"rc": rc, "stderr": err[:200].decode("latin1")},
                 cls="refgroup-symbol-trailing-dot" if narrow else None))
         shutil.rmtree(d, ignore_errors=True)
+        # directed: `[refgroup]` entries without a subsection define no group and leak into none — not into the selection either
+        for bare in (["\tinclude = refs/heads"], ["\tinclude"], ["\texclude = refs/tags", "\tname = stray"], ["\tincludeRegexp = refs/heads/.*"]):
+            d = os.path.join(scratch, "bare")
+            s, c = RC.base_scenario()
+            names = (b"refs/heads/a", b"refs/heads/b", b"refs/tags/t")
+            for n in names:
+                s.refs.append((n, c))
+            s.compute()
+            gitdir = s.materialise(d)
+            with open(os.path.join(gitdir, "config"), "a") as f:
+                f.write("[refgroup]\n" + "\n".join(bare) + "\n")
+            inp = {"local": ["[refgroup]"] + bare, "refs": [n.decode() for n in names]}
+            for args, want in ((["--json", "--no-progress", "--show-refs"], True), (["--json", "--no-progress", "--show-refs", s.oids[c].hex()], False)):
+                rc, out, err = S.run_sizer(ctx["bins"]["sizer"], d, args)
+                res.case(("bare", tuple(bare), len(args)), True)
+                marks = {}
+                for l in err.split(b"\n"):
+                    if l.startswith(b"+ "):
+                        marks[l[2:]] = True
+                    elif l.startswith(b"  "):
+                        marks[l[2:]] = False
+                if rc != 0 or marks != {n: want for n in names}:
+                    res.violations.append(vlib.Violation(
+                        "a [refgroup] entry without a subsection changes which references are traversed", dict(inp, args=args),
+                        expected="exit 0 with every reference %s" % ("traversed" if want else "left alone (only the ROOT is traversed)"),
+                        observed={"rc": rc, "marks": {k.decode(): v for k, v in marks.items()}, "stderr": err[:200].decode("latin1")}))
+            shutil.rmtree(d, ignore_errors=True)
     finally:
         shutil.rmtree(scratch, ignore_errors=True)
     res.coverage_extra["input_distribution"] = dist
